@@ -228,6 +228,7 @@ type loopInfo struct {
 	autoVariant *Term
 	autoVarDesc string
 	idx         int
+	initMap     map[*Term]*Term // header symbols -> values on entry to the loop (for atentry())
 }
 
 type invariant struct {
